@@ -187,8 +187,8 @@ def gen_cases(run):
             # every request bootstraps a Raft node: fewer credentials; the cluster half of the combined tree is sampled
             # (it is the same filter as the cluster application, only behind the Raft routes in the chain)
             creds = [c for c in creds if c[0] in ("none", "wrong", "viewer", "operator", "admin", "admin2", "raftkey", "admin-prefix", "admin-extended")]
-        if app == "raftcluster" and run.tier != "thorough":
-            eps = ENDPOINTS["raft"] + rng.shuffle(ENDPOINTS["cluster"])[:6]
+        if app == "raftcluster":
+            eps = ENDPOINTS["raft"] + rng.shuffle(ENDPOINTS["cluster"])[:6 if run.tier != "thorough" else 14]
         for (name, meth, tmpl, body) in eps:
             path = fill(tmpl)
             b = {"j": body} if body is not None else {}
@@ -214,7 +214,7 @@ def gen_cases(run):
                 vs.append(("bad-query", meth, path, b, "limit=abc"))
             nv = len(vs) if run.tier == "thorough" else 2
             for v in rng.shuffle(vs)[:nv]:
-                ncred = len(creds) if run.tier == "thorough" else 2
+                ncred = 7 if run.tier == "thorough" else 2
                 for cred in rng.shuffle(creds)[:ncred]:
                     cases.append(mk(app, rbac, rk, ak, lim, name, v[0], cred, v[1], v[2], v[3], v[4]))
     return cases
